@@ -282,3 +282,100 @@ Proof.
     pose proof (words_nonul L (nth_error_In _ _ Hli)) as Hn. rewrite Forall_forall in Hn. apply Hn, nth_In.
     rewrite (words_len L (nth_error_In _ _ Hli)). unfold wf in W. rewrite Forall_forall in W. specialize (W i Hi). lia.
 Qed.
+
+(* ---- automatic detection of the language of an encoded phrase *)
+Lemma matching_fst_lb ls li0 toks li idx : In (li, idx) (matching ls li0 toks) -> (li0 <= li)%nat.
+Proof. intros H. apply matching_iff in H. destruct H as (_&_&H&_). exact H. Qed.
+
+Lemma matching_nodup ls li0 toks : NoDup (map fst (matching ls li0 toks)).
+Proof.
+  revert li0. induction ls as [|L ls IH]; intros li0; cbn [matching]; [constructor|].
+  destruct (spec_lookup_all L toks) as [idx|]; [|apply IH]. cbn [map fst]. constructor; [|apply IH].
+  intros H. apply in_map_iff in H. destruct H as ([l i]&E&H). cbn in E. subst l.
+  apply matching_fst_lb in H. lia.
+Qed.
+
+Lemma transfer_new_seed sgn cs a o s : R cs a -> op_ok o ->
+  fst (astep langs a o) = mkastate (as_deps a) (as_mask a) ((as_next a, s) :: as_seeds a) (as_next a + 1) ->
+  exists d', heap_get (st_heap (stp (step sgn langs cs o))) (st_next cs) = Some d' /\ Valid d' /\ abs_data d' = s.
+Proof.
+  intros HR Ho E. destruct (step_refines sgn cs a o HR Ho) as [_ S2]. rewrite E in S2.
+  pose proof (R_heap _ _ S2) as RH. cbn [as_seeds] in RH.
+  pose proof (f_equal (fun m => aget m (st_next cs)) RH) as G. cbv beta in G.
+  rewrite aget_abs in G. cbn [aget] in G. rewrite (R_next _ _ HR), N.eqb_refl in G.
+  rewrite <- (R_next _ _ HR) in G. unfold stp.
+  destruct (heap_get _ (st_next cs)) as [d'|] eqn:Eg'; [|discriminate]. cbn [option_map] in G.
+  exists d'. split; [reflexivity|]. split; [apply (heap_get_valid _ _ _ (R_valid _ _ S2) Eg') | congruence].
+Qed.
+
+Theorem roundtrip_auto sgn cs a h d li L coin : R cs a -> heap_get (st_heap cs) h = Some d ->
+  nth_error langs li = Some L -> coin < 2048 ->
+  spec_supported (as_mask a) (d_features d) = true -> NormOK (st_deps cs) L (abs_data d) coin ->
+  no_nul (published (st_deps cs) L (abs_data d) coin) ->
+  let P := published (st_deps cs) L (abs_data d) coin in
+  let words := map (spec_word L) (spec_indices (abs_data d) coin) in
+  let r := step sgn langs cs (OpDecode P coin true) in
+  (* no other registered language recognises all sixteen words: same seed, language reported *)
+  ((forall li' L', nth_error langs li' = Some L' -> li' <> li -> spec_lookup_all L' words = None) ->
+     outp r = OutStatus ST_OK (Some (st_next cs)) (Some li) /\ heap_get (st_heap (stp r)) (st_next cs) = Some d) /\
+  (* some other language does: refused as ambiguous, whatever the check values *)
+  ((exists li' L', nth_error langs li' = Some L' /\ li' <> li /\ spec_lookup_all L' words <> None) ->
+     outp r = OutStatus ST_MULT_LANG None None).
+Proof.
+  intros HR Hg Hli Hc Hsup HN Hnn P words r.
+  pose proof (heap_get_valid _ _ _ (R_valid _ _ HR) Hg) as V.
+  set (s := abs_data d) in *. assert (Hs : aseed_ok s) by apply (canon_abs_ok d (proj1 V)).
+  pose proof (spec_indices_wf s coin Hc) as W. pose proof (spec_indices_length s coin) as Len.
+  assert (HL : In L langs) by apply (nth_error_In _ _ Hli).
+  assert (Et : spec_tokens (fst (spec_norm (dp_nfkd (st_deps cs)) P)) = words).
+  { unfold NormOK in HN. fold P in HN. rewrite HN.
+    apply tokens_sjoin; [destruct (spec_indices s coin); discriminate | apply words_ok_map; assumption]. }
+  assert (Hin : In (li, spec_indices s coin) (matching langs 0 words)).
+  { apply matching_iff. exists L. rewrite Nat.sub_0_r. repeat split; [exact Hli | lia | apply lookup_own; assumption]. }
+  assert (Eo : outp r = match matching langs 0 words with
+                        | [] => OutStatus ST_LANG None None
+                        | [(li0, idx)] => finish_out a (st_next cs) idx coin true (Some li0)
+                        | _ => OutStatus ST_MULT_LANG None None end).
+  { unfold r. rewrite (decode_auto_spec sgn cs a P coin true HR Hnn Hc). cbv zeta. rewrite Et.
+    unfold words. rewrite map_length, Len. reflexivity. }
+  pose proof (matching_nodup langs 0 words) as ND.
+  split.
+  - intros Hno.
+    assert (Em : matching langs 0 words = [(li, spec_indices s coin)]).
+    { destruct (matching langs 0 words) as [|[l1 i1] m] eqn:EM; [destruct Hin|].
+      assert (A1 : l1 = li).
+      { destruct (Nat.eq_dec l1 li) as [|Hne]; [assumption|exfalso].
+        assert (H1 : In (l1, i1) (matching langs 0 words)) by (rewrite EM; left; reflexivity).
+        apply matching_iff in H1. destruct H1 as (L1&H1&_&H2). rewrite Nat.sub_0_r in H1.
+        rewrite (Hno l1 L1 H1 Hne) in H2. discriminate. }
+      subst l1. destruct m as [|[l2 i2] m].
+      - destruct Hin as [E|[]]. congruence.
+      - exfalso. assert (H2 : In (l2, i2) (matching langs 0 words)) by (rewrite EM; right; left; reflexivity).
+        cbn [map fst] in ND. inversion ND as [|? ? Hn _]; subst.
+        destruct (Nat.eq_dec l2 li) as [->|Hne]; [apply Hn; left; reflexivity|].
+        apply matching_iff in H2. destruct H2 as (L2&H2&_&H3). rewrite Nat.sub_0_r in H2.
+        rewrite (Hno l2 L2 H2 Hne) in H3. discriminate. }
+    assert (Ea : astep langs a (OpDecode P coin true) =
+                 (mkastate (as_deps a) (as_mask a) ((as_next a, s) :: as_seeds a) (as_next a + 1),
+                  OutStatus 0 (Some (as_next a)) (Some li))).
+    { cbn [astep]. rewrite <- (R_deps _ _ HR), Et. unfold words at 1. rewrite map_length, Len. cbn [Nat.eqb negb].
+      rewrite Em. unfold afinish. rewrite indices_same_coin.
+      rewrite <- (eval_is_spec (spec_checksum s :: spec_data_words s)).
+      - rewrite spec_checksum_eval at 1. rewrite encode_checks. cbn [N.eqb negb].
+        rewrite (seed_of_own_indices s Hs). fold s in Hsup. change (a_features s) with (d_features d). rewrite Hsup.
+        cbn [negb]. rewrite (R_deps _ _ HR). reflexivity.
+      - constructor; [apply spec_checksum_lt | apply spec_data_words_wf].
+      - cbn [length]. destruct (spec_data_words_wf s) as [_ ->]. lia. }
+    split.
+    + destruct (sim_decode sgn cs a P coin true HR Hnn Hc) as [S1 _]. unfold r, outp. rewrite S1, Ea.
+      cbn [snd]. rewrite (R_next _ _ HR). reflexivity.
+    + destruct (transfer_new_seed sgn cs a (OpDecode P coin true) s HR (conj Hnn Hc)) as (d'&G&V'&A').
+      { rewrite Ea. reflexivity. }
+      unfold r. rewrite G. f_equal. apply valid_abs_inj; assumption.
+  - intros (li'&L'&Hl'&Hne&Hlk). rewrite Eo.
+    destruct (spec_lookup_all L' words) as [idx'|] eqn:E'; [|congruence].
+    assert (Hin' : In (li', idx') (matching langs 0 words)).
+    { apply matching_iff. exists L'. rewrite Nat.sub_0_r. repeat split; [exact Hl' | lia | exact E']. }
+    destruct (matching langs 0 words) as [|[l1 i1] [|[l2 i2] m]]; [destruct Hin | | reflexivity].
+    destruct Hin as [E1|[]]. destruct Hin' as [E2|[]]. congruence.
+Qed.
